@@ -267,7 +267,7 @@ static void explore(Twin& t, const std::string& hist, int depth, int fd, unsigne
         if (ev[0] == 'R' && t.invalidated.empty()) continue;
         const std::string h2 = hist + ev;
         // wall-clock budget: stop between complete first-level subtrees; the parent then compares the common part only
-        if (hist.empty() && vx::elapsed() > vx::ctx().deadline_s * 0.8) { put(fd, "#CUT\t-\t0\t0"); break; }
+        if (hist.empty() && vx::elapsed() > vx::ctx().deadline_s * 0.93) { put(fd, "#CUT\t-\t0\t0"); break; }
         const double tf0 = vx::elapsed();
         pid_t p = fork();
         if (p != 0 && getenv("VERIF_C13_PROF")) fprintf(stderr, "fork %.4f\n", vx::elapsed() - tf0);
